@@ -326,6 +326,7 @@ type Exec struct {
 	addrOf    map[string]*addrInfo
 	rangeApps   []*rangeApp
 	rangeAxioms []rangeAxiom
+	curLoop     *loopInfo
 }
 
 func posOf(in ssa.Instruction) token.Pos {
@@ -1122,6 +1123,8 @@ func (e *Exec) loopContract(f *Frame, li *loopInfo) *LoopContract {
 }
 
 func (e *Exec) loopEnter(s *State, f *Frame, li *loopInfo, from *ssa.BasicBlock) {
+	e.curLoop = li
+	defer func() { e.curLoop = nil }()
 	lc := e.loopContract(f, li)
 	if s.pure > 0 {
 		panic(unsupported("loop inside pure evaluation of " + f.fn.String()))
@@ -1255,6 +1258,8 @@ func (e *Exec) freshLike(s *State, old Value, t types.Type, hint string) Value {
 }
 
 func (e *Exec) loopBack(s *State, f *Frame, li *loopInfo) {
+	e.curLoop = li
+	defer func() { e.curLoop = nil }()
 	lc := e.loopContract(f, li)
 	if lc == nil {
 		return
